@@ -18,6 +18,11 @@ package main
 //	                                               Login's load of the record and its write-back of the login statistics.
 //	                                               Login never writes the hash: whatever the interleaving, afterwards the
 //	                                               stored hash is GenPasswd(B) -> ok | refused (= the answer of ChangePasswd)
+//	lrace <u> <hashA> <A> <B> <num> <seed>         the same interleaving, FORCED: the hash is set to hashA, then a full ptt.Login(u, A)
+//	                                               runs with ptt.ChangePasswd(u, A -> B) completing at the schedule point
+//	                                               login.afterQuery (between LoginQuery and userLogin; when the login is
+//	                                               refused the point is never reached and the change runs afterwards)
+//	                                               -> <login>,<change>,<hash stored at the end | none>
 //	blogin|bcheckpw <u> <pw> <want>                bbs.Login | bbs.CheckPasswd (the string-taking entry points)
 //	bchpw <u> <old> <new> <num> <seed> <want>      bbs.ChangePasswd
 //
@@ -56,6 +61,7 @@ import (
 	"github.com/Ptt-official-app/go-pttbbs/cmbbs"
 	"github.com/Ptt-official-app/go-pttbbs/ptt"
 	"github.com/Ptt-official-app/go-pttbbs/ptttype"
+	"github.com/Ptt-official-app/go-pttbbs/verifhook"
 	"verifharness/internal/bbsenv"
 	"verifharness/internal/hx"
 )
@@ -341,6 +347,88 @@ func execLogin(line string, nontrivial bool) (out string, idx int) {
 			}
 		}
 		return
+	case "lrace":
+		if len(ws) != 7 {
+			return bad()
+		}
+		u, hA, A, B := hx.UnHex(ws[1]), hx.UnHex(ws[2]), hx.UnHex(ws[3]), hx.UnHex(ws[4])
+		num, e1 := strconv.Atoi(ws[5])
+		seed, e2 := strconv.ParseInt(ws[6], 10, 64)
+		if e1 != nil || e2 != nil {
+			return bad()
+		}
+		if numFor(seed) != num {
+			seed = seedWith(0, func(n int) bool { return n == num })
+		}
+		uid := uidOf(u)
+		if loginEnv != nil {
+			_ = loginEnv.ResetSHM() // a full login takes one of 31 session slots
+		}
+		fired := false
+		chg := "-"
+		change := func() string {
+			rand.Seed(seed) //nolint:staticcheck
+			if err := ptt.ChangePasswd(toUserID(u), append([]byte{}, A...), append([]byte{}, B...), loginIP); err != nil {
+				return "refused"
+			}
+			return "ok"
+		}
+		var afterChange []byte
+		out = hx.CallT(30*time.Second, func() string {
+			if !uid.IsValid() {
+				return "refused"
+			}
+			ph := &ptttype.Passwd_t{}
+			copy(ph[:], hA)
+			if err := cmbbs.PasswdUpdatePasswd(uid, ph); err != nil {
+				return "refused"
+			}
+			verifhook.SetOnPoint(func(name string) {
+				if name == "login.afterQuery" && !fired {
+					fired = true
+					chg = change()
+					afterChange = storedNow(u)
+				}
+			})
+			_, _, errL := ptt.Login(toUserID(u), append([]byte{}, A...), loginIP)
+			verifhook.SetOnPoint(nil)
+			lg := "ok"
+			if errL != nil {
+				lg = "refused"
+			}
+			if !fired {
+				chg = change()
+				afterChange = storedNow(u)
+			}
+			hs := "none"
+			if h := storedNow(u); h != nil {
+				hs = hx.Hex(h)
+			}
+			return lg + "," + chg + "," + hs
+		})
+		verifhook.SetOnPoint(nil)
+		idx = run.Op(line, out, fmt.Sprintf("lrace:inflight=%v:%s", fired, chg), nontrivial)
+		if out == "PANIC" || out == "TIMEOUT" {
+			hib := len(hA) >= 2 && (hA[0] >= 0x80 || hA[1] >= 0x80)
+			if !(hib && out == "PANIC") {
+				run.Fail(idx, "crash:login", fmt.Sprintf("lrace %q: %s %s", u, out, hx.LastPanic))
+			}
+			return
+		}
+		if chg == "ok" {
+			// P-hat: the change reported success; whatever else was in flight, the hash stored afterwards is the one the
+			// change stored, it verifies B and (for another effective key) no longer A
+			h := storedNow(u)
+			okB, _ := cmbbs.CheckPasswd(append([]byte{}, h...), append([]byte{}, B...))
+			okA, _ := cmbbs.CheckPasswd(append([]byte{}, h...), append([]byte{}, A...))
+			stale := desKey(A) != desKey(B) && okA
+			fresh := len(B) > 0 && B[0] != 0
+			if !bytes.Equal(h, afterChange) || (fresh && !okB) || stale {
+				run.Fail(idx, "race:login-overwrote-changed-hash", fmt.Sprintf("ptt.Login(%q, %q) in flight=%v; ptt.ChangePasswd(%q -> %q) returned nil and stored %q; when the login had finished the stored hash was %q (verifies new password: %v, old password: %v)",
+					u, A, fired, A, B, afterChange, h, okB, okA))
+			}
+		}
+		return
 	case "stored":
 		if len(ws) != 2 {
 			return bad()
@@ -509,10 +597,28 @@ func (h *hist) chpwK(kind string, u, old, nw []byte) {
 	}
 }
 
+// lrace: a full login with password A while the stored hash (made from A or from another password) is changed A -> B
+// at the schedule point between the login's halves.
+func (h *hist) lrace(u, stored, A, B []byte) {
+	seed := int64(h.r.U64() >> 1)
+	out, _ := execLogin(fmt.Sprintf("lrace %s %s %s %s %d %d", hx.Hex(u), hx.Hex(h.madeHash(stored)), hx.Hex(A), hx.Hex(B), numFor(seed), seed), true)
+	parts := strings.Split(out, ",")
+	switch {
+	case len(parts) == 3 && parts[1] == "ok":
+		h.b.setPlain(u, B)
+	case len(parts) == 3:
+		h.b.setPlain(u, stored)
+	default:
+		if a := h.b[string(u)]; a != nil {
+			*a = acct{}
+		}
+	}
+}
+
 func (h *hist) stored(u []byte) { execLogin("stored "+hx.Hex(u), false) }
 
 var loginOps = map[string]bool{"reset": true, "sethash": true, "login": true, "loginfull": true, "checkpw": true, "chpw": true, "stored": true,
-	"blogin": true, "bcheckpw": true, "bchpw": true, "race": true}
+	"blogin": true, "bcheckpw": true, "bchpw": true, "race": true, "lrace": true}
 
 var loginEnv *bbsenv.Env
 
@@ -691,6 +797,35 @@ func loginMain() {
 		h.login("login", u, pw)
 		h.login("blogin", u, base)
 		h.stored(u)
+	}
+
+	// a password change completing while a full login of the same user is in flight (forced at the schedule point
+	// login.afterQuery): the change must survive the login's write-back of its statistics
+	nL := 10
+	if th {
+		nL = 150
+	}
+	for i := 0; i < nL; i++ {
+		u := loginUsers[i%len(loginUsers)]
+		h := newHist(r, [][]byte{u})
+		A, B := loginPws[r.Intn(len(loginPws))], loginPws[r.Intn(len(loginPws))]
+		if i < 4 {
+			A, B = loginPws[i%3], loginPws[(i+1)%3]
+		}
+		st := A
+		if i%5 == 4 {
+			st = loginPws[r.Intn(len(loginPws))] // the login may be refused: the change then runs after it
+		}
+		h.lrace(u, st, A, B)
+		h.login("login", u, A)
+		h.login("login", u, B)
+		h.login("checkpw", u, B)
+		h.stored(u)
+		if i%3 == 0 {
+			h.lrace(u, B, B, A) // and back, again under a login
+			h.login("login", u, A)
+			h.login("login", u, B)
+		}
 	}
 
 	// NOT generated (round 7, time box): the `race` op (an outside write of the hash while a full ptt.Login is in flight)
